@@ -123,11 +123,17 @@ def run_job(args):
                 if part.counters["evaluations"] == 2:
                     part.sample({"job": job, "choices": choices[:60], "result": result, "points": outcome["points"]}, cap=1)
 
-            ex, nodes = thrx.explore(scenario, bound, on_exec, horizon=60.0)
+            ex, nodes = thrx.explore(scenario, bound, on_exec, horizon=60.0, policy=job.get("policy", "fair"))
             part.count("states", nodes + 1)
+            if job.get("policy"):
+                part.count("executions_under_policy_" + job["policy"].replace(":", "_"), ex)
     finally:
         thrx.uninstall(undo)
     return part
+
+
+POLICIES_QUICK = ("lifo", "name-desc", "slow:orchestrator")
+POLICIES_THOROUGH = ("lifo", "name", "name-desc", "slow:orchestrator", "slow:a0")
 
 
 def run(ctx):
@@ -138,11 +144,17 @@ def run(ctx):
     for j in jobs:
         small = len(j["spec"]["vars"]) <= 2
         items.append((j, bound_small if small else bound_big))
+        # other DEFAULT schedules (a different base point of the deviation-bounded tree): quick = the default execution only,
+        # thorough = plus every single deviation from it
+        for pol in (POLICIES_QUICK if ctx.quick else POLICIES_THOROUGH):
+            items.append((dict(j, policy=pol), 0 if ctx.quick else 1))
     ctx.rule = (
         "stateless deviation-bounded exploration of the thread schedule of the REAL orchestrated solve (run_local_thread_dcop, "
         "deploy_computations, run(timeout=10 virtual s), DPOP, thread-mode agents) under a cooperative scheduler with virtual time: per "
         f"(DCOP instance x agent set x distribution) the fair default schedule plus every schedule with <= {bound_small} deviation(s) "
-        f"(2-variable instances) / <= {bound_big} (3-variable instances); distributions: every mapping computation->agent (quick: a "
+        f"(2-variable instances) / <= {bound_big} (3-variable instances), and the same from other default schedules (most-recently-run "
+        f"thread first, by thread name descending, a slow orchestrator thread; thorough: also by name ascending and a slow agent a0): their "
+        f"default execution (thorough: plus every single deviation); distributions: every mapping computation->agent (quick: a "
         "representative subset) plus the outputs of oneagent, adhoc, gh_cgdp. Oracle per execution: status OK before the timeout, assignment "
         "complete, brute-force optimal, reported cost/violation equal to the reference accounting. states = schedule-tree nodes (distinct "
         "decision prefixes), transitions = scheduling points executed, traces = executions; non-trivial = execution with >= 1 deviation"
@@ -162,7 +174,7 @@ def replay(case):
         with rt_common.sandbox():
             outs = []
             for _ in range(2):
-                sched, result, outcome = thrx.execute(rt_common.solve_scenario(job), choices, horizon=60.0)
+                sched, result, outcome = thrx.execute(rt_common.solve_scenario(job), choices, horizon=60.0, policy=job.get("policy", "fair"))
                 outs.append((result, outcome["abort"], outcome["crash"] and outcome["crash"][:2], outcome["points"]))
             verdict = judge(job, choices, result, outcome, part)
     finally:
